@@ -2,7 +2,7 @@
    (props/C14/harness), recomputes every observation with the extracted Coq model
    (coq/extracted/c14_model.ml) and prints one MISMATCH block per disagreeing case.
      B;<edits>;<triples>;<obs>
-     W;<mid>:<nid>;<npool>;<wops>;<obs>
+     W;<mid>:<nid>;<npool>;<wops>;<obs>;L=<CAN-ID of the message after save + load | - | skip>
      D;<operations of the default builder of a new bus>                              *)
 module BZ = Z   (* zarith; the extracted model defines its own module Z *)
 open C14_model
@@ -95,12 +95,15 @@ let run_w ids npool wops_s obs_s =
         | ["DeA"] -> w := wstep !w WDetachAll; "K"
         | ["BrA"] -> w := wstep !w WBusRemoveAll; "K"
         | ["Ri"] -> w := wstep !w WRemoveInterface; "K"
-        | ["Na"] | ["Nr"] | ["Ba2"] | ["Br2"] -> w := wstep !w WFrame; "K"
+        | ["Na"] | ["Nr"] | ["Ba2"] | ["Br2"] | ["SbB"; _] -> w := wstep !w WFrame; "K"
         | ["Sb"; i] -> w := wstep !w (WSetBuilder (nat_of_int (int_of_string i))); "K"
         | _ -> failwith ("bad wop " ^ tok) in
       Printf.sprintf "%s:%s:%s:%s:%d:%s" flag (zs (world_can_id !w)) (zs !w.w_id) (zs !w.w_prio)
         (if !w.w_has_static then 1 else 0) (zs !w.w_node_id)) toks flags in
-  String.concat "/" obs
+  (* the save / load leg: the message is saved iff it is attached to an interface that is on the
+     bus, and then keeps its CAN-ID *)
+  let loaded = if !w.w_attached && !w.w_on_bus then zs (world_can_id !w) else "-" in
+  String.concat "/" obs, loaded
 
 let () =
   let ic = open_in Sys.argv.(1) in
@@ -111,7 +114,11 @@ let () =
       let impl, model =
         match String.split_on_char ';' line with
         | ["B"; e; t; obs] -> obs, run_b e t
-        | ["W"; ids; np; ops; obs] -> obs, run_w ids np ops obs
+        | ["W"; ids; np; ops; obs; l] ->
+          let mobs, mloaded = run_w ids np ops obs in
+          if l = "L=skip" || l = "L=default-builder-edits-not-saved" then obs, mobs
+          else obs ^ ";" ^ l, mobs ^ ";L=" ^ mloaded
+        | ["W"; ids; np; ops; obs] -> obs, fst (run_w ids np ops obs)
         | ["D"; obs] -> obs, ops_str default_ops
         | _ -> "PANIC-OR-MALFORMED", "(model is total)" in
       if impl <> model then begin
